@@ -152,8 +152,12 @@ func allocNow() (uint64, uint64) {
 }
 
 // remeasure repeats fn ten times and returns the smallest allocation deltas seen.
+// remeasureTick is called between re-measurements (a slow case re-measured ten times must not look like a hang).
+var remeasureTick = func() {}
+
 func remeasure(fn func(), minB, minO uint64) (uint64, uint64) {
 	for k := 0; k < 10; k++ {
+		remeasureTick()
 		x0, y0 := allocNow()
 		fn()
 		x1, y1 := allocNow()
@@ -266,6 +270,7 @@ func c01Run(c *core.Ctx, m *bind.Msg, entry string, data []byte, meter bool) {
 	}
 	c.Inc("individually_metered")
 	bb, ob := allocBound(len(data))
+	remeasureTick = c.Tick
 	if b1-b0 > bb || o1-o0 > ob {
 		// a genuine over-allocation is deterministic, so it must exceed the bound in every one of ten more runs
 		minB, minO := remeasure(func() { implDecode(m, entry, in) }, b1-b0, o1-o0)
@@ -401,6 +406,10 @@ func c10Exec(c *core.Ctx, m *bind.Msg, entry string, data []byte, n int64) {
 	r := implDecode(m, entry, in)
 	if r.pi != nil {
 		c.Inc("decode_panics_left_to_C01")
+		return
+	}
+	if lastInputSliceChanged != "" {
+		c.FailCase("decode|"+ent+"|changes-callers-slice", fmt.Sprintf("%s via %s on %x: %s", m.Name, ent, clip(data), lastInputSliceChanged), "bytes", describeCase(m, entry, data))
 		return
 	}
 	if !bytes.Equal(in, data) || !bytes.Equal(buf[len(data):], bytes.Repeat([]byte{0xC3}, 8)) {
